@@ -15,69 +15,19 @@ WD = "operon_ai/coordination/watchdog.py"
 FILES = [CT, TY, WD, "operon_ai/coordination/priority.py"]
 
 
-# ---------------------------------------------------------------- effect summaries of the graph's mutators
-def summarise_mutator(fi):
-    """{'adds': [...], 'removes': set of predicates} where a predicate is a frozenset of
-    ('waiter'|'blocking'|'resource', <parameter name>) equalities that select the removed edges"""
-    params = [a for a in fi.params() if a != "self"]
-    removes, adds, retargets = set(), [], []
-    for n in walk_no_nested(fi.node):
-        # del self.edges[X]  -> removes waiter == X
-        if isinstance(n, ast.Delete):
-            q = parent(n)
-            tidy = isinstance(q, ast.If) and isinstance(q.test, ast.UnaryOp) and isinstance(q.test.op, ast.Not) and "self.edges[" in src(q.test.operand)
-            for t in n.targets:
-                if isinstance(t, ast.Subscript) and is_self_attr(t.value, "edges") and isinstance(t.slice, ast.Name) and t.slice.id in params and not tidy:
-                    removes.add(frozenset({("waiter", t.slice.id)}))
-        if isinstance(n, ast.Call) and isinstance(n.func, ast.Attribute) and n.func.attr == "pop" and is_self_attr(n.func.value, "edges") and n.args and isinstance(n.args[0], ast.Name) and n.args[0].id in params:
-            removes.add(frozenset({("waiter", n.args[0].id)}))
-        # self.edges[W] = [(b, r) for b, r in self.edges[W] if <keep>]
-        if isinstance(n, ast.Assign) and isinstance(n.targets[0], ast.Subscript) and is_self_attr(n.targets[0].value, "edges") and isinstance(n.value, ast.ListComp):
-            comp = n.value
-            g = comp.generators[0]
-            names = [x.id for x in ast.walk(g.target) if isinstance(x, ast.Name)]
-            wkey = n.targets[0].slice
-            waiter_fixed = wkey.id if isinstance(wkey, ast.Name) and wkey.id in params else None
-            keep = g.ifs[0] if g.ifs else None
-            if keep is None:
-                if any(isinstance(x, ast.IfExp) for x in ast.walk(comp.elt)):
-                    retargets.append(src(comp.elt))
-                continue
-            pred = set()
-            if waiter_fixed:
-                pred.add(("waiter", waiter_fixed))
-            # removed = not keep ; keep is a conjunction/disjunction of  <elem> != <param>
-            for c in (ast.walk(keep) if keep is not None else []):
-                if isinstance(c, ast.Compare) and len(c.ops) == 1 and isinstance(c.left, ast.Name) and isinstance(c.comparators[0], ast.Name) and c.comparators[0].id in params:
-                    role = {0: "blocking", 1: "resource"}.get(names.index(c.left.id)) if c.left.id in names else None
-                    if role and isinstance(c.ops[0], ast.NotEq):
-                        pred.add((role, c.comparators[0].id))
-            # `keep = a != x or b != y`  removes  a == x and b == y ; `keep = a != x and b != y` removes either: split
-            if isinstance(keep, ast.BoolOp) and isinstance(keep.op, ast.And):
-                base = {q for q in pred if q[0] == "waiter"}
-                for q in pred - base:
-                    removes.add(frozenset(base | {q}))
-            else:
-                removes.add(frozenset(pred))
-        # add
-        if isinstance(n, ast.Call) and isinstance(n.func, ast.Attribute) and n.func.attr == "append" and isinstance(n.func.value, ast.Subscript) and is_self_attr(n.func.value.value, "edges"):
-            adds.append(src(n.args[0]) if n.args else "?")
-    return dict(adds=adds, removes=removes, retargets=retargets)
-
-
 def run(p, led, tier):
     res = Resolver(p)
     ctrl = p.cls("CellCycleController", CT)
     graph = p.cls("DependencyGraph", TY)
     wdc = p.cls("Watchdog", WD)
     led.explanation = (
-        "The wait-for graph must be a materialised view of {(w, h, r): w is blocked on r, h owns r}. Effect summaries "
-        "of the graph's mutators (which edges a call adds / removes, as predicates over waiter, blocking and resource, "
-        "extracted from the method bodies) are bound to the arguments at every call site in the controller and compared, "
-        "event by event, with the delta the definition requires: BLOCKED adds (w, owner, r); a successful acquisition "
-        "by w may only remove edges whose waiter is w; a full release of r by h may only remove edges (·, h, r); a "
-        "pre-emption must retarget (·, old, r); completing or aborting x must remove every edge mentioning x on every "
-        "path. Victim choice is extracted by abstract interpretation over all priority / age orderings of the cycle "
+        "The wait-for graph must be a materialised view of {(w, h, r): w is blocked on r, h owns r}. The controller's "
+        "handling of each event (acquire with every outcome, release, complete, abort) is abstractly interpreted on every "
+        "wait-for graph with at most two edges over three operations and two resources, for every relevant lock state, "
+        "and the graph afterwards is compared with the delta the definition requires: BLOCKED adds (w, owner, r); a "
+        "successful acquisition by w removes only w's wait on r; a full release of r by h removes exactly (·, h, r); a "
+        "pre-emption retargets (·, old, r); completing or aborting x removes every edge mentioning x whether or not x "
+        "holds anything. Victim choice is extracted by abstract interpretation over all priority / age orderings of the cycle "
         "members; the victim is terminated through the controller's abort. Decides the maintenance discipline "
         "(necessary for the view to stay exact), not the exactness of the DFS over all histories.")
     led.not_decided = ["correctness of the DFS cycle search on all graphs", "exactness of the view over whole histories (only per-event deltas are compared)"]
@@ -85,137 +35,11 @@ def run(p, led, tier):
     led.rule("C15-R1", "every controller event changes the wait-for graph by exactly the delta the definition requires (per call site)", 5)
     led.rule("C15-R2", "the deadlock victim is the lowest-priority (or oldest) live member and is terminated through abort_operation", 3)
 
-    summaries = {}
-    for m in graph.methods.values():
-        if any(isinstance(n, (ast.Delete, ast.Assign, ast.Call)) and "self.edges" in src(n) for n in walk_no_nested(m.node)):
-            summaries[m.name] = summarise_mutator(m)
-    led.extra["mutator_summaries"] = {k: dict(adds=v["adds"], removes=[sorted(x) for x in v["removes"]], retargets=v["retargets"]) for k, v in summaries.items() if v["adds"] or v["removes"] or v["retargets"]}
-    if "add_dependency" not in summaries or not any(v["removes"] for v in summaries.values()):
-        raise AnchorError("DependencyGraph mutators not recognised")
-
-    def site_effects(fi, region_nodes):
-        """graph mutator calls among region_nodes: [(call, method, {param: arg text})]"""
-        out = []
-        for n in region_nodes:
-            for c in ast.walk(n):
-                if isinstance(c, ast.Call) and isinstance(c.func, ast.Attribute) and c.func.attr in summaries and "dependency_graph" in src(c.func.value):
-                    m = graph.methods[c.func.attr]
-                    params = [a for a in m.params() if a != "self"]
-                    bind = {}
-                    for i, a in enumerate(c.args):
-                        if i < len(params):
-                            bind[params[i]] = src(a)
-                    for k in c.keywords:
-                        bind[k.arg] = src(k.value)
-                    out.append((c, c.func.attr, bind))
-        return out
-
     acq = p.find_method(ctrl, "acquire_resource")
     rel = p.find_method(ctrl, "release_resource")
     if acq is None or rel is None:
         raise AnchorError("CellCycleController.acquire_resource / release_resource not found")
-    cfg = cfg_of(acq, led)
-    # identify the variable holding the lock result and the try_acquire call
-    tcalls = [c for c in walk_no_nested(acq.node) if isinstance(c, ast.Call) and isinstance(c.func, ast.Attribute) and c.func.attr == "try_acquire"]
-    if len(tcalls) != 1:
-        raise AnchorError("acquire_resource: expected one try_acquire call")
-    tn = cfg.node_of(tcalls[0])
-    var = tn.ast.targets[0].id if isinstance(tn.ast, ast.Assign) and isinstance(tn.ast.targets[0], ast.Name) else None
-    if var is None:
-        raise AnchorError("acquire_resource: try_acquire result is not bound to a variable")
     LR = p.cls("LockResult", TY)
-    me = "ctx.operation_id"
-    for member in [n for n, _ in LR.enum_members()]:
-        r = walk_folded(cfg, [(tn, m_, l) for m_, l in tn.succ if l != "exc"], {var: {f"LockResult.{member}"}})
-        nodes = [n.ast for n in r if n != "__seen__" and hasattr(n, "kind") and n.kind == "stmt" and n.ast is not None]
-        eff = site_effects(acq, nodes)
-        key = f"CellCycleController.acquire_resource ▸ result {member}"
-        removed = set()
-        added = []
-        for c, mname, bind in eff:
-            for pred in summaries[mname]["removes"]:
-                removed.add(frozenset((role, bind.get(par, par)) for role, par in pred))
-            if summaries[mname]["adds"]:
-                added.append(bind)
-        if member == "BLOCKED":
-            okadd = [b for b in added if b.get("waiter") == me and "owner" in b.get("blocking", "") and b.get("resource") in ("resource_id",)]
-            if okadd and not removed:
-                led.ok("C15-R1", key, where(acq, tcalls[0]), f"adds (waiter={me}, blocking=lock.owner, resource=resource_id); removes nothing")
-            else:
-                led.fail("C15-R1", key, where(acq, tcalls[0]), f"a blocked acquisition must add exactly the edge (waiter, current owner, resource); found adds={added} removes={[sorted(x) for x in removed]}")
-        elif member in ("ACQUIRED", "REENTRANT"):
-            bad = [pred for pred in removed if not any(role == "waiter" and arg == me for role, arg in pred)]
-            if bad:
-                led.fail("C15-R1", key, where(acq, tcalls[0]),
-                         f"a successful acquisition removes edges selected by {[sorted(x) for x in bad]}: edges in which *other* operations wait on this one are dropped although it still owns what they wait for",
-                         witness="B blocks on r1 held by A; A acquires an unrelated r2; the edge B→A disappears and a later real cycle A→B is not reported")
-            elif added:
-                led.fail("C15-R1", key, where(acq, tcalls[0]), f"a successful acquisition adds edges {added}")
-            else:
-                led.ok("C15-R1", key, where(acq, tcalls[0]), f"removes only edges whose waiter is the acquiring operation ({[sorted(x) for x in removed]})")
-        elif member == "PREEMPTED":
-            bad = [pred for pred in removed if not any(role == "waiter" and arg == me for role, arg in pred)]
-            retarget = [b for c, mname, b in eff if summaries[mname].get("retargets")]
-            if bad:
-                led.fail("C15-R1", key + " ▸ removal", where(acq, tcalls[0]), f"pre-emption removes edges selected by {[sorted(x) for x in bad]} (others waiting on the new owner)",
-                         witness="as for ACQUIRED")
-            if not retarget:
-                led.fail("C15-R1", key + " ▸ retarget", where(acq, tcalls[0]),
-                         "after a pre-emption the edges (·, old owner, r) are not retargeted to the new owner: waiters keep pointing at an operation that no longer holds r",
-                         witness="C waits on r held by A; B pre-empts r; the graph still says C→A")
-            if not bad and retarget:
-                led.ok("C15-R1", key, where(acq, tcalls[0]), "retargets the waiters of the pre-empted owner")
-        else:
-            if eff:
-                led.fail("C15-R1", key, where(acq, tcalls[0]), f"graph changed on a {member} result: {[(m_, b) for _, m_, b in eff]}")
-            else:
-                led.ok("C15-R1", key, where(acq, tcalls[0]), "graph untouched", nontrivial=False)
-
-    # release
-    rcfg = cfg_of(rel, led)
-    eff = site_effects(rel, [n.ast for n in rcfg.nodes if n.kind == "stmt" and n.ast is not None])
-    removed = set()
-    for c, mname, bind in eff:
-        for pred in summaries[mname]["removes"]:
-            removed.add(frozenset((role, bind.get(par, par)) for role, par in pred))
-    key = "CellCycleController.release_resource ▸ full release"
-    bad = []
-    for pred in removed:
-        d = dict(pred)
-        if d.get("blocking") == me and d.get("resource") in ("resource_id",) and "waiter" not in d:
-            continue
-        bad.append(sorted(pred))
-    if bad:
-        led.fail("C15-R1", key, where(rel, rel.node),
-                 f"a release removes edges selected by {bad}; only (·, releasing operation, released resource) may go: the operation's own waits and edges for resources it still holds are dropped",
-                 witness="A holds r1 and r2, B waits on r1, C waits on r2; A releases r1: the edge C→A disappears although A still holds r2")
-    elif not removed:
-        led.fail("C15-R1", key, where(rel, rel.node), "a full release leaves the edges (·, releaser, resource) in the graph")
-    else:
-        led.ok("C15-R1", key, where(rel, rel.node), "removes exactly the edges that waited on this operation for this resource")
-
-    # terminators: every path removes all edges mentioning the operation
-    for tname in ("complete_operation", "abort_operation"):
-        t = p.find_method(ctrl, tname)
-        if t is None:
-            raise AnchorError(f"CellCycleController.{tname} not found")
-        tc = cfg_of(t, led)
-        direct = set()
-        for n in tc.nodes:
-            if n.kind == "stmt" and n.ast is not None:
-                for c, mname, bind in site_effects(t, [n.ast]):
-                    preds = {frozenset((role, bind.get(par, par)) for role, par in pr) for pr in summaries[mname]["removes"]}
-                    if frozenset({("waiter", me)}) in preds and frozenset({("blocking", me)}) in preds:
-                        direct.add(n)
-        key = f"CellCycleController.{tname} ▸ removes every edge mentioning the operation"
-        esc = tc.escapes(starts=[tc.entry], through=direct, targets=[tc.exit]) if direct else [("no call", None)]
-        if esc:
-            led.fail("C15-R1", key, where(t, t.node),
-                     "the graph is cleaned only as a side effect of releasing a held resource: an operation that ends while holding nothing (it was blocked on its first resource) leaves its wait-for edge behind",
-                     witness="B blocks on r held by A and is aborted; the edge B→A stays; when A later blocks on something B 'holds' in a stale edge, a phantom cycle is reported")
-        else:
-            led.ok("C15-R1", key, where(t, t.node), "every path to return passes remove_all_for_agent(operation)")
-
     # ---------------- R1b: one-step refinement on every small wait-for graph
     # The controller's handling of an event is a graph transformation.  It is interpreted (fdai) on *every* graph with at most two
     # edges over operations {a, b, c} and resources {r, s}, for every relevant lock state, and the resulting graph is compared with
@@ -351,10 +175,20 @@ def run(p, led, tier):
             led.ok("C15-R2", key, where(relall, relall.node), "no break/return leaves the loop over the victim's record")
 
     # ---------------- R2 victim
-    sel = p.find_method(wdc, "_select_deadlock_victim")
+    # the victim selector by role: the Watchdog method (other than check/execute) that receives the DeadlockInfo
+    sel = None
+    for m in wdc.methods.values():
+        if m.name in ("check", "execute", "__init__"):
+            continue
+        if any(a.annotation is not None and "DeadlockInfo" in src(a.annotation) for a in m.node.args.args) and any(is_self_attr(x, "deadlock_strategy") or "deadlock_strategy" in src(x) for x in ast.walk(m.node) if isinstance(x, ast.Attribute)):
+            sel = m
+    if sel is None:
+        cands = [m for m in wdc.methods.values() if m.name not in ("check", "execute", "__init__") and any(is_self_attr(x, "deadlock_strategy") for x in ast.walk(m.node))]
+        sel = cands[0] if len(cands) == 1 else None
     exe = p.find_method(wdc, "execute")
     if sel is None or exe is None:
-        raise AnchorError("Watchdog._select_deadlock_victim / execute not found")
+        raise AnchorError("Watchdog: victim selector (method taking the DeadlockInfo and reading deadlock_strategy) / execute not found")
+    led.extra["victim_selector"] = sel.qual
     ctx_cls = p.cls("OperationContext", CT)
     dl_cls = p.cls("DeadlockInfo", TY)
     for strategy, field in (("priority", "priority"), ("oldest", "created_at")):
@@ -384,7 +218,7 @@ def run(p, led, tier):
                 want = min(live)[1]
                 if outs != {want}:
                     bad.append(f"{field}s {dict(zip('abc', perm))}, live={[x for _, x in live]}: victim {sorted(outs, key=str)}, expected {want}")
-        key = f"Watchdog._select_deadlock_victim ▸ strategy={strategy}"
+        key = f"{sel.qual} ▸ strategy={strategy}"
         if bad:
             led.fail("C15-R2", key, where(sel, sel.node), f"{len(bad)}/{n} orderings: {bad[0]}")
         else:
